@@ -39,10 +39,35 @@ type JCase struct {
 	AllowUnknown  bool `json:"allow_unknown"`
 	DropRequired  bool `json:"drop_required"`
 	AllowPartial  bool `json:"allow_partial"`
+	// AllOpts: every adapter call of the case gets ALL five options (the two adapters share one option type), in
+	// the Order-th permutation; an option's effect must not depend on which other options accompany it, or where
+	AllOpts bool `json:"all_opts,omitempty"`
+	Order   int  `json:"order,omitempty"`
 	// a MarshalJSON call that fails, made through the adapter right before the case's own (0 = none)
 	Prelude int `json:"prelude,omitempty"`
 	// > 0: instead of Value, a chain of that many messages nested through the type's first self-recursive field
 	Deep int `json:"deep,omitempty"`
+}
+
+// optList: the options for one adapter call - `own` alone, or all five in the case's permutation.
+func (c *JCase) optList(own ...csproto.JSONOption) []csproto.JSONOption {
+	if !c.AllOpts {
+		return own
+	}
+	all := []csproto.JSONOption{csproto.JSONIndent(c.Indent), csproto.JSONUseEnumNumbers(c.EnumNumbers), csproto.JSONIncludeZeroValues(c.ZeroValues),
+		csproto.JSONAllowUnknownFields(c.AllowUnknown), csproto.JSONAllowPartialMessages(c.AllowPartial)}
+	var out []csproto.JSONOption
+	k := c.Order
+	if k < 0 {
+		k = -k
+	}
+	for len(all) > 0 {
+		i := k % len(all)
+		k /= len(all)
+		out = append(out, all[i])
+		all = append(all[:i], all[i+1:]...)
+	}
+	return out
 }
 
 // deepChain builds a message nested depth levels through the first singular field whose type is the message itself.
@@ -170,7 +195,7 @@ func oracleC18(c *JCase) (fail *ev.Failure) {
 	if c.Prelude > 0 && c.Prelude < len(jsonPreludes) {
 		runPrelude(c.Prelude, mt)
 	}
-	opts := []csproto.JSONOption{csproto.JSONIndent(c.Indent), csproto.JSONUseEnumNumbers(c.EnumNumbers), csproto.JSONIncludeZeroValues(c.ZeroValues)}
+	opts := c.optList(csproto.JSONIndent(c.Indent), csproto.JSONUseEnumNumbers(c.EnumNumbers), csproto.JSONIncludeZeroValues(c.ZeroValues))
 	out, err := csproto.JSONMarshaler(m, opts...).MarshalJSON()
 	if err != nil {
 		return ev.Failf(jsonSig("marshal-error", mt), "JSONMarshaler: %v", err)
@@ -192,7 +217,7 @@ func oracleC18(c *JCase) (fail *ev.Failure) {
 	}
 	// round trip through the adapter
 	back := mt.New()
-	if err := csproto.JSONUnmarshaler(back).UnmarshalJSON(out); err != nil {
+	if err := csproto.JSONUnmarshaler(back, c.optList()...).UnmarshalJSON(out); err != nil {
 		return ev.Failf(jsonSig("adapter-rejects-own-output", mt), "JSONUnmarshaler rejects the adapter's output %.200s: %v", out, err)
 	}
 	if !rt.equal(back, m) {
@@ -263,7 +288,7 @@ func oracleC18(c *JCase) (fail *ev.Failure) {
 	if c.InjectUnknown {
 		withUnknown := injectKey(out)
 		dst := mt.New()
-		err := csproto.JSONUnmarshaler(dst, csproto.JSONAllowUnknownFields(c.AllowUnknown)).UnmarshalJSON(withUnknown)
+		err := csproto.JSONUnmarshaler(dst, c.optList(csproto.JSONAllowUnknownFields(c.AllowUnknown))...).UnmarshalJSON(withUnknown)
 		if c.AllowUnknown && err != nil {
 			return ev.Failf(jsonSig("allow-unknown-not-honoured", mt), "AllowUnknownFields=true but %.200s is rejected: %v", withUnknown, err)
 		}
@@ -299,7 +324,7 @@ func oracleC18(c *JCase) (fail *ev.Failure) {
 				req := path[len(path)-1]
 				partial, _ := json.Marshal(parsed)
 				dst := mt.New()
-				err := csproto.JSONUnmarshaler(dst, csproto.JSONAllowPartialMessages(c.AllowPartial)).UnmarshalJSON(partial)
+				err := csproto.JSONUnmarshaler(dst, c.optList(csproto.JSONAllowPartialMessages(c.AllowPartial))...).UnmarshalJSON(partial)
 				depth := "own"
 				if len(path) > 1 {
 					depth = "child"
@@ -421,7 +446,7 @@ func jsonTypes() []*MsgType {
 	return out
 }
 
-const ruleC18 = "case = (message type of the corpus for gogo / Google v1 (legacy) / Google v2, plain and fast-marshal; value incl. enums, 64-bit integers, bytes, maps, oneofs, well-known types as fields and - Value (every kind incl. null), Struct, ListValue, Timestamp, wrappers of Google v2 and gogo - as top-level messages; the 2^3 marshal option combinations; indent in {\"\", \" \", \"  \", \"\\t\", \" \\t\"}; JSON with/without an injected unknown key x AllowUnknownFields (also for documents nested 99..400 levels deep through recursive types); JSON with/without a required field - the message's own or one of a child, incl. proto2 children of a proto3 message - x AllowPartialMessages (Google v2); 1 in 3 right after a MarshalJSON call that the runtime refuses (out-of-range Timestamp / Duration, also as a later list element; required field missing in a child)); oracle: json.Valid, adapter round trip == original, the OWNING runtime's JSON decoder accepts the output and decodes the original, structural probes for every option, nil => (nil, nil) (untyped nil and typed nil pointers of every corpus package and of the well-known types that implement json.Marshaler themselves), unmarshal into nil => error; non-trivial = message with >= 1 enum / 64-bit / bytes / map field set and >= 1 option set; distinct by case content"
+const ruleC18 = "case = (message type of the corpus for gogo / Google v1 (legacy) / Google v2, plain and fast-marshal; value incl. enums, 64-bit integers, bytes, maps, oneofs, well-known types as fields and - Value (every kind incl. null), Struct, ListValue, Timestamp, wrappers of Google v2 and gogo - as top-level messages; the 2^3 marshal option combinations, each adapter call with its own options only or (1 in 2) with all five options in one of the 120 orders; indent in {\"\", \" \", \"  \", \"\\t\", \" \\t\"}; JSON with/without an injected unknown key x AllowUnknownFields (also for documents nested 99..400 levels deep through recursive types); JSON with/without a required field - the message's own or one of a child, incl. proto2 children of a proto3 message - x AllowPartialMessages (Google v2); 1 in 3 right after a MarshalJSON call that the runtime refuses (out-of-range Timestamp / Duration, also as a later list element; required field missing in a child)); oracle: json.Valid, adapter round trip == original, the OWNING runtime's JSON decoder accepts the output and decodes the original, structural probes for every option, nil => (nil, nil) (untyped nil and typed nil pointers of every corpus package and of the well-known types that implement json.Marshaler themselves), unmarshal into nil => error; non-trivial = message with >= 1 enum / 64-bit / bytes / map field set and >= 1 option set; distinct by case content"
 
 // ---- well-known types as TOP-LEVEL messages (their JSON form is not an object: null, number, string, array) ----
 
@@ -567,6 +592,10 @@ func TestC18(t *testing.T) {
 			AllowUnknown:  rapid.Bool().Draw(rt, "allowunk"),
 			DropRequired:  rapid.Bool().Draw(rt, "dropreq"),
 			AllowPartial:  rapid.Bool().Draw(rt, "allowpartial"),
+		}
+		if rapid.Bool().Draw(rt, "allopts") {
+			c.AllOpts, c.Order = true, rapid.IntRange(0, 119).Draw(rt, "order")
+			rec.Class("all-five-options-in-a-drawn-order")
 		}
 		if rapid.IntRange(0, 2).Draw(rt, "hasprelude") == 0 {
 			c.Prelude = rapid.IntRange(1, len(jsonPreludes)-1).Draw(rt, "prelude")
